@@ -110,7 +110,7 @@ def build_evaluator(spec):
     if kind == "counting":
         return K.CountingEvaluator(build_evaluator(kw["inner"]), kw.get("tag", "cnt"))
     if kind == "faultyval":
-        return K.FaultyEvaluator(build_evaluator(kw["inner"]), kw["fail_after"], kw.get("tag", "fv"))
+        return K.FaultyEvaluator(build_evaluator(kw["inner"]), kw["fail_after"], kw.get("tag", "fv"), kw.get("params_raise", False))
     raise ValueError(kind)
 
 
